@@ -102,7 +102,7 @@ def delete_sources(ctx, F, rid):
                 if second and all(x.kind == 'call' and x.key == 'std::iter::Iterator::next' for x in second):
                     # the iterated collection is plan.delete (or the `dels` parameter fed with &plan.delete)
                     for x in second:
-                        io = call_arg_origins(fl, x.bb, 0)
+                        io = iterated_collection(fl, x.bb)
                         if any(y.path[-1:] == ('delete',) for y in io) or any(y.kind in ('param', 'upvar') for y in io):
                             ok = True
         n += 1
